@@ -297,10 +297,11 @@ structure RescDFwd (α : Type) where
   dScales : List α
   dLogLik : α
 
-/-- from `tmp`, `dTmp` and `scales_[i]`: (dLikelihood_[i], dScales_[i], dLScales[i]) -/
-def rescDSite (tmp dTmp : List α) (c : α) : List α × α × α :=
+/-- from `likelihood_[i]` (the stored normalised vector), `dTmp` and `scales_[i]`: (dLikelihood_[i], dScales_[i],
+dLScales[i]); as repaired: one division by the scale factor (`(dTmp·c − tmp·ds) / c²` underflowed for small `c`) -/
+def rescDSite (lik dTmp : List α) (c : α) : List α × α × α :=
   let ds := sumL dTmp
-  (List.zipWith (fun dt t => (dt * c - t * ds) / (c * c)) dTmp tmp, ds, ds / c)
+  (List.zipWith (fun dt l => (dt - l * ds) / c) dTmp lik, ds, ds / c)
 
 /-- `tmp`, `dTmp` at a site ≥ 1; the reset branch (and the initialisation) start from `Σ_k eqFreq[k]·P(k,j)` like
 `computeForward_` (as repaired: they used `eqFreq[j]`, the derivative of another function unless the vector is stationary) -/
@@ -311,11 +312,11 @@ def rescDTmp (p : Params α) (brk : Bool) (e de : Emis α) (prevLik prevDLik : L
      vec p.n (fun j => de j * dot (col p j) prevLik + e j * sumL (mulV (col p j) prevDLik)))
 
 /-- per site ≥ 1: (flag, emissions, their derivative, likelihood_[i-1], scales_[i]) -/
-def rescDLoop (p : Params α) : List (Bool × Emis α × Emis α × List α × α) → List α → List (List α × α × α)
+def rescDLoop (p : Params α) : List (Bool × Emis α × Emis α × (List α × List α) × α) → List α → List (List α × α × α)
   | [], _ => []
-  | (b, e, de, prevLik, c) :: rest, prevDLik =>
+  | (b, e, de, (prevLik, lik), c) :: rest, prevDLik =>
     let t := rescDTmp p b e de prevLik prevDLik
-    let r := rescDSite t.1 t.2 c
+    let r := rescDSite lik t.2 c
     r :: rescDLoop p rest r.1
 
 def zip5 {β γ δ ε ζ : Type} : List β → List γ → List δ → List ε → List ζ → List (β × γ × δ × ε × ζ)
@@ -327,21 +328,22 @@ def rescDForward (p : Params α) (e0 : Emis α) (es : List (Emis α)) (de0 : Emi
     (bps : List Nat) (fw : RescFwd α) : RescDFwd α :=
   let c0 := fw.scales.headD zero
   let t0 := rescDTmp p true e0 de0 [] []
-  let r0 := rescDSite t0.1 t0.2 c0
+  let r0 := rescDSite (fw.lik.headD []) t0.2 c0
   let flags := fwdFlags (es.length + 1) es.length 1 bps
-  let r := r0 :: rescDLoop p (zip5 flags es des fw.lik fw.scales.tail) r0.1
+  let r := r0 :: rescDLoop p (zip5 flags es des (List.zip fw.lik fw.lik.tail) fw.scales.tail) r0.1
   { dLik := r.map (·.1), dScales := r.map (·.2.1), dLogLik := sumL (sortDesc (r.map (·.2.2))) }
 
 /-! ## RescaledHmmLikelihood::computeD2Forward_ (RescaledHmmLikelihood.cpp:486-602), as repaired
-(the accumulators that are reset are `d2Scales_[i]` and `d2LogLik_`).  `pow(x, 3)` is a libm call. -/
+(the accumulators that are reset are `d2Scales_[i]` and `d2LogLik_`; one division by the scale factor). -/
 
 def two : α := ofInt 2
 
-/-- from `tmp`, `dTmp`, `d2Tmp`, `scales_[i]`, `dScales_[i]`: (d2Likelihood_[i], d2Scales_[i], d2LScales[i]) -/
-def rescD2Site (tmp dTmp d2Tmp : List α) (c ds : α) : List α × α × α :=
+/-- from `likelihood_[i]`, `dLikelihood_[i]`, `d2Tmp`, `scales_[i]`, `dScales_[i]`: (d2Likelihood_[i], d2Scales_[i],
+d2LScales[i]); as repaired: `(d2Tmp − 2·dLik·ds − lik·d2s) / c`, one division by the scale factor -/
+def rescD2Site (lik dLik d2Tmp : List α) (c ds : α) : List α × α × α :=
   let d2s := sumL d2Tmp
-  let row := (List.zip d2Tmp (List.zip tmp dTmp)).map (fun x =>
-    x.1 / c - (d2s * x.2.1 + two * ds * x.2.2) / (c * c) + two * (ds * ds) * x.2.1 / pow c (ofInt 3))
+  let row := (List.zip d2Tmp (List.zip lik dLik)).map (fun x =>
+    (x.1 - two * x.2.2 * ds - x.2.1 * d2s) / c)
   (row, d2s, d2s / c - (ds / c) * (ds / c))
 
 def rescD2Tmp (p : Params α) (brk : Bool) (e de d2e : Emis α) (prevLik prevDLik prevD2Lik : List α) :
@@ -356,11 +358,11 @@ def rescD2Tmp (p : Params α) (brk : Bool) (e de d2e : Emis α) (prevLik prevDLi
 
 /-- per site ≥ 1: (flag, e, de, d2e, likelihood_[i-1], dLikelihood_[i-1], scales_[i], dScales_[i]) -/
 def rescD2Loop (p : Params α) :
-    List (Bool × Emis α × Emis α × Emis α × List α × List α × α × α) → List α → List (List α × α × α)
+    List (Bool × Emis α × Emis α × Emis α × (List α × List α) × (List α × List α) × α × α) → List α → List (List α × α × α)
   | [], _ => []
-  | (b, e, de, d2e, prevLik, prevDLik, c, ds) :: rest, prevD2Lik =>
+  | (b, e, de, d2e, (prevLik, lik), (prevDLik, dLik), c, ds) :: rest, prevD2Lik =>
     let t := rescD2Tmp p b e de d2e prevLik prevDLik prevD2Lik
-    let r := rescD2Site t.1 t.2.1 t.2.2 c ds
+    let r := rescD2Site lik dLik t.2.2 c ds
     r :: rescD2Loop p rest r.1
 
 def zip8 {β γ δ ε ζ η θ ι : Type} : List β → List γ → List δ → List ε → List ζ → List η → List θ → List ι →
@@ -377,9 +379,10 @@ structure RescD2Fwd (α : Type) where
 def rescD2Forward (p : Params α) (e0 : Emis α) (es : List (Emis α)) (de0 : Emis α) (des : List (Emis α))
     (d2e0 : Emis α) (d2es : List (Emis α)) (bps : List Nat) (fw : RescFwd α) (dfw : RescDFwd α) : RescD2Fwd α :=
   let t0 := rescD2Tmp p true e0 de0 d2e0 [] [] []
-  let r0 := rescD2Site t0.1 t0.2.1 t0.2.2 (fw.scales.headD zero) (dfw.dScales.headD zero)
+  let r0 := rescD2Site (fw.lik.headD []) (dfw.dLik.headD []) t0.2.2 (fw.scales.headD zero) (dfw.dScales.headD zero)
   let flags := fwdFlags (es.length + 1) es.length 1 bps
-  let r := r0 :: rescD2Loop p (zip8 flags es des d2es fw.lik dfw.dLik fw.scales.tail dfw.dScales.tail) r0.1
+  let r := r0 :: rescD2Loop p (zip8 flags es des d2es (List.zip fw.lik fw.lik.tail) (List.zip dfw.dLik dfw.dLik.tail)
+    fw.scales.tail dfw.dScales.tail) r0.1
   { d2Scales := r.map (·.2.1), d2LogLik := sumL (sortDesc (r.map (·.2.2))) }
 
 /-! ## LogsumHmmLikelihood::computeDForward_ / computeD2Forward_ (LogsumHmmLikelihood.cpp:378-598), as repaired
